@@ -1,4 +1,5 @@
 use crate::util::Args;
+pub mod c01;
 pub mod c19;
 pub mod smoke;
 
@@ -6,6 +7,7 @@ pub fn dispatch(a: &Args) {
 	match a.prop.as_str() {
 		"smoke" => smoke::run(a),
 		"c19" => c19::run(a),
+		"c01" => c01::run(a),
 		p => {
 			eprintln!("unknown property {}", p);
 			std::process::exit(2);
